@@ -101,7 +101,9 @@ def variants(prop, root):
             except (ValueError, OSError) as exc:
                 yield f"seeded/{name}", "break", None, f"stale: {exc}"
                 continue
-            yield f"seeded/{name}", "break", ov, meta.get("summary", "")
+            # 'masked': a valid property-breaking change that no new finding can single out because the construct it aggravates is already a recorded known
+            # finding of the unchanged tree (the check keeps printing that KNOWN-FINDING line); kept in the corpus, expected to add nothing
+            yield f"seeded/{name}", ("masked" if meta.get("expect") == "masked-by-known-finding" else "break"), ov, meta.get("summary", "")
     # behaviour-preserving refactorings (written by independent agents): every property's check must stay silent on each
     refac = os.path.join(VERIF, "refactorings")
     if os.path.isdir(refac):
@@ -146,7 +148,7 @@ def run_selftest(prop, root, quiet=False):
             results = [_one(j) for j in jobs]
     warn = 0
     for r in results:
-        expected = 1 if r["kind"] == "break" else 0
+        expected = 1 if r["kind"] == "break" else 0   # 'equiv' and 'masked' variants must add no finding
         r["as_expected"] = r["exit"] == expected
         if not r["as_expected"]:
             warn += 1
